@@ -222,7 +222,7 @@ func conv(d drive.TypeDesc, v model.Value) verdict {
 		if v.Kind == model.Struct {
 			out := model.StructV()
 			r := verdict{}
-			for _, fd := range d.Fields {
+			for _, fd := range flatFields(d) {
 				name := ionFieldName(fd)
 				val := zeroModel(fd.T)
 				for _, f := range v.Fields {
@@ -249,6 +249,19 @@ func conv(d drive.TypeDesc, v model.Value) verdict {
 		}
 	}
 	return errOnly
+}
+
+// flatFields lists the fields of a struct target with embedded structs flattened.
+func flatFields(d drive.TypeDesc) []drive.FieldDesc {
+	var out []drive.FieldDesc
+	for _, f := range d.Fields {
+		if f.Embedded && f.T.K == "struct" {
+			out = append(out, flatFields(f.T)...)
+			continue
+		}
+		out = append(out, f)
+	}
+	return out
 }
 
 // convSeq converts a list / sexp elementwise; n >= 0: into an array of length n.
@@ -421,7 +434,9 @@ func c17Exemplars() []model.Value {
 	out = append(out, model.StructV(), model.StructV(model.Field{Name: model.S("F"), Val: one}), model.StructV(model.Field{Name: model.S("f"), Val: one}),
 		model.StructV(model.Field{Name: model.S("F"), Val: one}, model.Field{Name: model.S("G"), Val: two}), model.StructV(model.Field{Name: model.S("F"), Val: model.StrV("x")}),
 		model.StructV(model.Field{Name: model.S("F"), Val: model.IntV(bigOf("4294967296"))}), model.StructV(model.Field{Name: model.S("k"), Val: model.ListV(one)}),
-		model.StructV(model.Field{Name: model.S("F"), Val: model.NullOf(model.String)}), model.StructV(model.Field{Name: model.S("F"), Val: model.StructV(model.Field{Name: model.S("F"), Val: one})}))
+		model.StructV(model.Field{Name: model.S("F"), Val: model.NullOf(model.String)}),
+		model.StructV(model.Field{Name: model.S("P0"), Val: model.Int64V(7)}, model.Field{Name: model.S("P1"), Val: model.StrV("s")}, model.Field{Name: model.S("Q1"), Val: model.Int64V(9)}),
+		model.StructV(model.Field{Name: model.S("P0"), Val: model.Int64V(7)}), model.StructV(model.Field{Name: model.S("F"), Val: model.StructV(model.Field{Name: model.S("F"), Val: one})}))
 	return out
 }
 
@@ -447,6 +462,12 @@ func c17Targets() []drive.TypeDesc {
 	out = append(out, drive.TypeDesc{K: "struct", Fields: []drive.FieldDesc{{Name: "X", T: td("int")}, {Name: "Y", T: td("int")}, ann}},
 		drive.TypeDesc{K: "struct", Fields: []drive.FieldDesc{{Name: "X", T: td("iface")}, {Name: "Y", T: td("string")}, {Name: "Z", T: td("bool")}, ann}},
 		drive.TypeDesc{K: "struct", Fields: []drive.FieldDesc{ann}})
+	// fields promoted through three levels of embedded structs
+	chain := drive.TypeDesc{K: "struct", Fields: []drive.FieldDesc{{Name: "P0", T: td("int")}, {Name: "P1", T: td("string")}, {Name: "P2", T: td("int8")}}}
+	for l := 0; l < 3; l++ {
+		chain = drive.TypeDesc{K: "struct", Fields: []drive.FieldDesc{{Name: "Emb" + string(rune('0'+l)), T: chain, Embedded: true}, {Name: "Q" + string(rune('0'+l)), T: td("int")}}}
+	}
+	out = append(out, chain)
 	three := drive.TypeDesc{K: "struct", Fields: []drive.FieldDesc{{Name: "X", T: td("int")}, {Name: "Y", T: td("int")}, ann}}
 	out = append(out, wrap("slice", three, 0))
 	out = append(out, wrap("slice", wrap("slice", td("int"), 0), 0), wrap("map", wrap("slice", td("int"), 0), 0),
@@ -509,6 +530,14 @@ type C17Stream struct {
 	Vals   []model.Value `json:"vals"`
 	Binary bool          `json:"binary"`
 	To     bool          `json:"to"` // DecodeTo(&interface{}) instead of Decode()
+	// Wrapper: every value is decoded with DecodeTo into the *same* annotation
+	// wrapper variable (nothing of an earlier value may linger).
+	Wrapper bool `json:"wrapper,omitempty"`
+}
+
+type c17Wrap struct {
+	V   interface{}
+	Ann []ion.SymbolToken `ion:",annotations"`
 }
 
 func runC17Stream(c C17Stream) string {
@@ -522,9 +551,29 @@ func runC17Stream(c C17Stream) string {
 	}
 	return drive.Guard2(func() string {
 		d := ion.NewDecoder(ion.NewReaderBytes(data))
+		var w c17Wrap
 		for i, want := range c.Vals {
 			var got interface{}
 			var err error
+			if c.Wrapper {
+				if want.Kind == model.Struct && !want.IsNull {
+					continue // an Ion struct is indistinguishable from the wrapper itself
+				}
+				// like encoding/json, a non-nil pointer held by an interface{} is decoded
+				// *into*; only the annotations field is deliberately left as it was
+				w.V = nil
+				err = d.DecodeTo(&w)
+				if err != nil {
+					return fmt.Sprintf("DecodeTo(&wrapper) call %d fails: %v\nstream: %s", i+1, err, model.SeqString(c.Vals))
+				}
+				m := drive.ModelOf(reflect.ValueOf(&w).Elem(), drive.HNone)
+				exp := ifaceNorm(want)
+				exp.Ann = want.Ann
+				if dd := looseDiff(exp, m); dd != "" {
+					return fmt.Sprintf("DecodeTo into a reused wrapper, call %d: the wrapper denotes %s, the stream's value is %s: %s\nstream: %s", i+1, m.String(), want.String(), dd, model.SeqString(c.Vals))
+				}
+				continue
+			}
 			if c.To {
 				err = d.DecodeTo(&got)
 			} else {
@@ -540,7 +589,7 @@ func runC17Stream(c C17Stream) string {
 		}
 		for k := 0; k < 3; k++ {
 			var err error
-			if c.To {
+			if c.To || c.Wrapper {
 				var x interface{}
 				err = d.DecodeTo(&x)
 			} else {
@@ -556,9 +605,24 @@ func runC17Stream(c C17Stream) string {
 
 func genC17Stream(t *rapid.T) C17Stream {
 	cfg := &gen.Cfg{MaxDepth: 2, AllowUnknown: false, NoAnn: true, Size: &gen.Size{}}
-	c := C17Stream{Binary: gen.Chance(t, 50), To: gen.Chance(t, 50)}
+	c := C17Stream{Binary: gen.Chance(t, 50), To: gen.Chance(t, 50), Wrapper: gen.Chance(t, 30)}
 	for _, v := range gen.Seq(t, cfg, 6) {
-		c.Vals = append(c.Vals, uniqueFields(v))
+		v = uniqueFields(v)
+		if c.Wrapper && gen.Chance(t, 50) && !(v.Kind == model.Struct) && !v.IsNull {
+			v.Ann = []model.Sym{model.S(gen.Pick(t, []string{"a", "b", "x y"}))}
+		}
+		c.Vals = append(c.Vals, v)
+	}
+	if c.Wrapper {
+		// wrapper streams skip Ion structs, so the ErrNoInput tail must account for them:
+		// drop them from the stream altogether
+		var keep []model.Value
+		for _, v := range c.Vals {
+			if !(v.Kind == model.Struct && !v.IsNull) {
+				keep = append(keep, v)
+			}
+		}
+		c.Vals = keep
 	}
 	return c
 }
